@@ -197,6 +197,14 @@ def generic(ctx, bj, body, site):
         return True, "negation of a small non-negative constant cannot overflow"
     if k == "assert" and what in ("DivisionByZero", "RemainderByZero") and ops and re.fullmatch(r"[0-9]+", ops[-1] or ""):
         return int(ops[-1]) != 0, "constant divisor %s" % ops[-1]
+    if k == "assert" and what in ("DivisionByZero", "RemainderByZero") and site.get("cond"):
+        # the asserted condition is `divisor == 0` expected false; in monomorphic code an alignment / size constant is a literal
+        m_ = re.fullmatch(r"Eq\(([0-9]+), 0\)|Eq\(0, ([0-9]+)\)", site["cond"])
+        if m_ and site.get("expected") is False:
+            dv = int(m_.group(1) or m_.group(2))
+            return dv != 0, "constant divisor %d (the asserted `divisor == 0` is decided at compile time)" % dv
+        if site.get("expected") is False and re.fullmatch(r"Eq\(0, <[^()]* as FlatBase>::ALIGN\)|Eq\(<[^()]* as FlatBase>::ALIGN, 0\)", site["cond"]):
+            return lemma("the divisor is a FlatBase::ALIGN constant: a type alignment (E1 L1: equal to rustc's alignment of the type), never 0")(ctx, bj, body, site)
     if k == "panicky" and len(ops) >= 2 and ("split_at" in what or "Data::split" in what):
         return dom_cmp(lambda s: s["ops"][1], lambda s: "core::slice::<impl [T]>::len(%s)" % s["ops"][0])(ctx, bj, body, site)
     if k == "unsafe-call" and bj["unsafe"]:
